@@ -45,7 +45,7 @@ def acceptance(cfg):
     L = 3 if cfg.tier == "quick" else 4
     for n in range(1, L + 1):
         for seq in itertools.product(C.KINDS, repeat=n):
-            if seq.count("J") <= 1:
+            if seq.count("J") + seq.count("K") <= 1:
                 seqs.append(seq)
     for seq in seqs:
         base = tuple([False] * len(seq))
@@ -68,6 +68,8 @@ def acceptance(cfg):
                 break
             if i is None:
                 break
+            if seq[i] == "K":
+                break  # the reason lies in the RIGHT input of the join: alias() belongs there, not before the verb
             if mask[i]:
                 viol.append({"key": f"c08.accept.alias-does-not-help.{C.seq_name(seq, mask)}", "what": f"verb {i} ({seq[i]}) still raises SubqueryError with alias() directly before it", "payload": {"seq": seq, "mask": mask}})
                 break
